@@ -1261,7 +1261,12 @@ class CompilerPassGatherCode(CompilerPass):
                 # labels are not allowed to have indentation
                 c = c.strip()
 
-            if options.original_code_as_comment and line.node:
+            # original_code is the main file's text: lines of library modules have no counterpart in it
+            if (
+                options.original_code_as_comment
+                and line.node
+                and line.node.root() is self.data.tree
+            ):
                 ori_line = original_code[line.node.lineno - 1]
                 if prev_comment != ori_line:
                     c = c.ljust(just_width)
